@@ -16,3 +16,124 @@ class ImplExt(Impl):
                 self.unsched_observer = self.dispatcher.create_or_get_observer(jsl.UnscheduledOperationsObserver)
             return lst(o.operation_id for o in self.unsched_observer.unscheduled_operations)
         return super().cmd_q(ts)
+
+
+# ----------------------------------------------------------------------------------- observers (world)
+from job_shop_lib.reinforcement_learning import MakespanReward, IdleTimeReward  # noqa: E402
+from impl import fmt_sop  # noqa: E402
+
+
+def fmt_snapshot(d) -> str:
+    sch = " | ".join(" ".join(fmt_sop(x) for x in ms) for ms in d.schedule.schedule)
+    un = " ".join(str(o.operation_id) for o in d.unscheduled_operations())
+    return (f"<{sch} ; {' '.join(map(str, d.machine_next_available_time))} ; "
+            f"{' '.join(map(str, d.job_next_operation_index))} ; {' '.join(map(str, d.job_next_available_time))} ; "
+            f"{d.current_time()} ; {un}>")
+
+
+class Recorder(jsl.DispatcherObserver):
+    """Test observer: logs every call it receives with a snapshot of what the dispatcher shows then."""
+    _is_singleton = False
+
+    def __init__(self, dispatcher, *, subscribe=True, trace=None, rid=None):
+        super().__init__(dispatcher, subscribe=subscribe)
+        self.log = []
+        self.trace = trace if trace is not None else []
+        self.rid = rid
+
+    def update(self, scheduled_operation):
+        self.log.append(f"U {fmt_sop(scheduled_operation)} {fmt_snapshot(self.dispatcher)}")
+        self.trace.append(f"{self.rid}:U{scheduled_operation.operation.operation_id}")
+
+    def reset(self):
+        self.log.append(f"R {fmt_snapshot(self.dispatcher)}")
+        self.trace.append(f"{self.rid}:R")
+
+
+KINDS = {
+    "history": jsl.HistoryObserver,
+    "unscheduled": jsl.UnscheduledOperationsObserver,
+    "makespan_reward": MakespanReward,
+    "idle_reward": IdleTimeReward,
+    "recorder": Recorder,
+}
+
+
+class ImplWorld(ImplExt):
+    """Interpreter with the observer heap."""
+
+    def _new_dispatcher(self):
+        super()._new_dispatcher()
+        self.heap = []      # observers by id
+        self.kinds = []
+        self.trace = []
+
+    def _register(self, obs, kind):
+        self.heap.append(obs)
+        self.kinds.append(kind)
+        if isinstance(obs, Recorder):
+            obs.rid = len(self.heap) - 1
+            obs.trace = self.trace
+        return len(self.heap) - 1
+
+    def cmd_obs(self, ts):
+        kind = ts[0]
+        cls = KINDS[kind]
+        try:
+            obs = cls(self.dispatcher)
+        except Exception:  # pylint: disable=broad-except
+            return "raise"
+        return str(self._register(obs, kind))
+
+    def cmd_cog(self, ts):
+        kind = ts[0]
+        try:
+            obs = self.dispatcher.create_or_get_observer(KINDS[kind])
+        except Exception:  # pylint: disable=broad-except
+            return "raise"
+        for i, o in enumerate(self.heap):
+            if o is obs:
+                return str(i)
+        return str(self._register(obs, kind))
+
+    def cmd_unsub(self, ts):
+        i = int(ts[0])
+        if i >= len(self.heap):
+            return "raise"
+        try:
+            self.dispatcher.unsubscribe(self.heap[i])
+        except ValueError:
+            return "raise"
+        return "ok"
+
+    def cmd_resub(self, ts):
+        i = int(ts[0])
+        if i >= len(self.heap) or any(o is self.heap[i] for o in self.dispatcher.subscribers):
+            return "raise"  # double subscription is outside the event alphabet (DESIGN C10)
+        self.dispatcher.subscribe(self.heap[i])
+        return "ok"
+
+    def fmt_obs(self, i) -> str:
+        o, kind = self.heap[i], self.kinds[i]
+        if kind == "history":
+            return f"{i}:history " + " ".join(fmt_sop(x) for x in o.history)
+        if kind == "unscheduled":
+            return f"{i}:unscheduled " + " ".join(lst(op.operation_id for op in dq)
+                                                  for dq in o.unscheduled_operations_per_job)
+        if kind == "makespan_reward":
+            return f"{i}:makespan_reward {' '.join(str(int(r)) for r in o.rewards)} cur {o.current_makespan}"
+        if kind == "idle_reward":
+            return f"{i}:idle_reward {' '.join(str(int(r)) for r in o.rewards)}"
+        if kind == "recorder":
+            return f"{i}:recorder " + " ".join(o.log)
+        return f"{i}:?"
+
+    def cmd_wsnap(self, ts):
+        ids = []
+        for s in self.dispatcher.subscribers:
+            idx = next((i for i, o in enumerate(self.heap) if o is s), None)
+            ids.append("?" if idx is None else str(idx))
+        return f"subs {' '.join(ids)} || " + " || ".join(self.fmt_obs(i) for i in range(len(self.heap)))
+
+    def cmd_trace(self, ts):
+        return lst(self.trace)
